@@ -79,15 +79,23 @@ int main(int argc, char **argv) {
     std::vector<std::uint64_t> ref(static_cast<std::size_t>(nthreads) * static_cast<std::size_t>(iters));
     for (int t = 0; t < nthreads; ++t)
         for (int i = 0; i < iters; ++i) ref[static_cast<std::size_t>(t * iters + i)] = own_work(t * 31 + i, seed + static_cast<std::uint64_t>(t));
-    const Position shared(fens[1]);
-    const std::uint64_t shared_ref = shared_work(shared);
+    // shared Positions that NO thread (not even this one) has queried before the workers start: the reference digests
+    // come from separate copies built from the same FENs, so a lazily filled cache inside Position would be written
+    // for the first time by concurrent const queries
+    std::vector<Position> shared_pool;
+    std::vector<std::uint64_t> shared_ref;
+    for (int i = 0; i < iters; ++i) {
+        shared_pool.emplace_back(fens[i % 5]);
+        const Position reference(fens[i % 5]);
+        shared_ref.push_back(shared_work(reference));
+    }
     std::atomic<int> mismatches{0};
     std::vector<std::thread> th;
     for (int t = 0; t < nthreads; ++t) {
         th.emplace_back([&, t] {
             for (int i = 0; i < iters; ++i) {
                 if (own_work(t * 31 + i, seed + static_cast<std::uint64_t>(t)) != ref[static_cast<std::size_t>(t * iters + i)]) mismatches++;
-                if (shared_work(shared) != shared_ref) mismatches++;
+                if (shared_work(shared_pool[static_cast<std::size_t>(i)]) != shared_ref[static_cast<std::size_t>(i)]) mismatches++;
             }
         });
     }
